@@ -2,7 +2,7 @@
 # usage: confirm_mutant.sh <patch.diff> <demo.diff> '<demo command run from the worktree root>'
 # Confirms in the scratch worktree /tmp/wt-verify: tests pass with the patch, demo fails with it, passes without.
 W=/tmp/wt-verify
-export CARGO_TARGET_DIR=$W/target CARGO_NET_OFFLINE=true
+export CARGO_TARGET_DIR=$W/target CARGO_NET_OFFLINE=true RUST_BACKTRACE=0
 cd $W || exit 3
 git checkout -q -- . ; git clean -fdq -e target
 git apply "$1" || { echo "PATCH DOES NOT APPLY"; exit 3; }
@@ -10,8 +10,9 @@ echo "--- 43 tests with the change:"
 cargo test --workspace --no-fail-fast --offline 2>&1 | grep -E "^test result|FAILED|panicked" | head -8
 git apply "$2" || { echo "DEMO DOES NOT APPLY"; exit 3; }
 echo "--- demonstration WITH the change (should fail):"
-( eval "timeout 600 $3" ) 2>&1 | grep -E "^test result|FAILED|FAIL|PASS|panicked|error(\[|:)|failed|passed|ok$|exit=" | head -8
+( eval "timeout 900 $3" ) > $W/demo.out 2>&1; echo "rc=$?"; grep -E "^test result|^test .* (FAILED|ok)|FAIL|PASS|exit=" $W/demo.out | head -8; tail -2 $W/demo.out | cut -c1-200
 git apply -R "$1" || { echo "cannot revert patch"; exit 3; }
 echo "--- demonstration WITHOUT the change (should pass):"
-( eval "timeout 600 $3" ) 2>&1 | grep -E "^test result|FAILED|FAIL|PASS|panicked|error(\[|:)|failed|passed|ok$|exit=" | head -8
+( eval "timeout 900 $3" ) > $W/demo.out 2>&1; echo "rc=$?"; grep -E "^test result|^test .* (FAILED|ok)|FAIL|PASS|exit=" $W/demo.out | head -8
+rm -f $W/demo.out
 git checkout -q -- . ; git clean -fdq -e target
